@@ -37,7 +37,7 @@ ASSUMPTIONS = [
     "regular expressions are generated anchored so that match/search/fullmatch agree",
 ]
 MIN_CLASSES = {
-    "quick": {"clause:in": 1500, "clause:notin": 1500, "clause:re": 1500, "clause:eq": 1500, "mixed-and-or": 500, "cmd:clean": 200, "cmd:orphans": 150, "clean:perform": 80, "layout:running-job": 150},
+    "quick": {"clause:in": 1500, "clause:notin": 1500, "clause:re": 1500, "clause:eq": 1500, "mixed-and-or": 500, "cmd:clean": 200, "cmd:orphans": 150, "clean:perform": 80, "layout:running-job": 150, "layout:job-reached-through-a-repair-link": 40},
     "thorough": {"mixed-and-or": 5000, "cmd:clean": 2000},
 }
 
